@@ -80,6 +80,23 @@ def sweep(tier: str) -> Sweep:
                     sw.check(a == x, "== is not transitive", {**case, "clause": "eq-transitive"})
             except Exception as e:  # noqa: BLE001
                 sw.check(False, "comparison raised", {**case, "clause": "no-exception"}, None, f"{type(e).__name__}: {e}")
+    # release numbers of any size compare part by part (no positional weight, no digit tricks): powers of ten and of two
+    for c, cls in CLS.items():
+        for B in (10, 100, 1000, 10 ** 6, 2 ** 16, 2 ** 32, 10 ** 12):
+            rels = [(1, 0, B), (1, 1, 0), (1, B, 0), (2, 0, 0), (0, 0, B * B), (0, B, 0), (0, 1, 0), (0, 0, B), (B, 0, 0), (1, 0, 0), (1, 0, 1), (0, B, B)]
+            objs = [(r_, parse_ok(cls, "%d.%d.%d" % r_)) for r_ in rels]
+            for (ra, a), (rb, b) in itertools.product(objs, repeat=2):
+                if a is None or b is None:
+                    continue
+                case = {"cls": c, "a": "%d.%d.%d" % ra, "b": "%d.%d.%d" % rb, "clause": "release-order"}
+                sw.note(["release-order", c, case["a"], case["b"]], "release-order")
+                try:
+                    o = ops(a, b)
+                    sw.check(o["lt"] == (ra < rb) and o["eq"] == (ra == rb) and o["gt"] == (ra > rb), "release numbers are not compared part by part", case, [ra < rb, ra == rb, ra > rb], o)
+                    if o["eq"]:
+                        sw.check(hash(a) == hash(b), "equal versions with different hashes", {**case, "clause": "hash"}, "equal hashes", [hash(a), hash(b)])
+                except Exception as e:  # noqa: BLE001
+                    sw.check(False, "comparison raised", {**case, "clause": "no-exception"}, None, f"{type(e).__name__}: {e}")
     # inside one release the tags decide: every pair and every triple of a tag pool
     S = CLS["sem"]
     for rel, strs in sem_same_release().items():
